@@ -20,6 +20,8 @@ fn limits(ctx: &mut Ctx, sc: &StreamCase) {
     for lim in lims {
         ctx.count("limit_cases");
         let r = ep_vec(&sc.z, sc.zlib, lim);
+        let vl = take_vec_line(sc.z.len(), lim, &r);
+        ctx.count("vec_loop_lines"); ctx.line(&format!("{} id={} rp=LIMIT;fmt={} data={}", vl, id, sc.zlib as u8, hex(&sc.z)));
         for (cl, m) in &r.problems { ctx.violation(id, cl, m.clone(), replay.clone()); }
         if lim >= n {
             if r.st != 0 || r.out != full.out { ctx.violation(id, "limit", format!("limit {} >= true size {}: status {} ({} bytes)", lim, n, r.st, r.out.len()), replay.clone()); }
